@@ -252,19 +252,14 @@ theorem c08_split_same_steps_partial (step : StepFn K) (hfix : IsFixed step) (en
   split_same_steps step hfix env henv s0 t1 t2 sg d n1 n2 (by simpa [Status.code] using hst) hex hdt
     hsg hd h01 h12 hfirst1 hpast1 hfirst2 hpast2 hno
 
-/-- the simulation of finding C08-N1: `t = 0`, `dt = 10`, NONE-like bookkeeping, exact_finish_time = 0 -/
-def f18Sim : Sim ℚ :=
-  { t := 0, dt := 10, dtLastDone := 0, status := stRUNNING, exactFinish := 0, stepsDone := 0,
-    nOdes := 0, isBS := false, syncs := 0, hist := [] }
-
 /-- Finding C08-N1 — the full-strength split statement (without `hno`) is FALSE of the model, and the
     tie shows the code does the same: with `dt = 10`, `integrate(1)` ends at `t = 10`; the following
     `integrate(2)` sees its target behind it, flips `dt` to −10 and steps back to `t = 0`, whereas
     `integrate(2)` alone ends at `t = 10`.  (Evaluated in the kernel on the ℚ instance of the model.) -/
 theorem c08_split_overshoot_reverses :
-    let A := (integrate stepOnce (fun _ => {}) 8 f18Sim 1 false).sim
+    let A := (integrate stepOnce (fun _ => {}) 8 demoSim 1 false).sim
     let B := (integrate stepOnce (fun _ => {}) 8 A 2 false).sim
-    let C := (integrate stepOnce (fun _ => {}) 8 f18Sim 2 false).sim
+    let C := (integrate stepOnce (fun _ => {}) 8 demoSim 2 false).sim
     A.t = 10 ∧ B.t = 0 ∧ B.dt = -10 ∧ B.stepsDone = 2 ∧ C.t = 10 ∧ C.dt = 10 ∧ C.stepsDone = 1 := by
   decide +kernel
 
@@ -391,14 +386,14 @@ example : IsAdaptive (fun _ t dt _ => ⟨t + dt, 1 / 2, dt⟩ : StepFn ℚ) 1 (1
 
 /-- `t₀ = 0, dt = 1/10, tmax = 1`, exact finish, `t += dt/2` twice: 10 steps, `t = 1`, `dt = 1/10` -/
 example :
-    let s0 : Sim ℚ := { f18Sim with dt := 1 / 10, exactFinish := 1 }
+    let s0 : Sim ℚ := { demoSim with dt := 1 / 10, exactFinish := 1 }
     let r := (integrate stepHalves (fun _ => {}) 20 s0 1 false).sim
     r.t = 1 ∧ r.dt = 1 / 10 ∧ r.stepsDone = 10 ∧ r.status = 0 := by
   decide +kernel
 
 /-- backwards with a positive `dt` and a step larger than the interval: one step, `dt = −10` after -/
 example :
-    let s0 : Sim ℚ := { f18Sim with exactFinish := 1 }
+    let s0 : Sim ℚ := { demoSim with exactFinish := 1 }
     let r := (integrate stepOnce (fun _ => {}) 20 s0 (-3) false).sim
     r.t = -3 ∧ r.dt = -10 ∧ r.stepsDone = 1 ∧ r.status = 0 := by
   decide +kernel
@@ -407,7 +402,7 @@ example :
 example :
     let env : Nat → Flags := fun k => if k = 3 then { user := true, escape := true } else
       if k = 4 then { n := 0 } else {}
-    let s0 : Sim ℚ := { f18Sim with dt := 1, exactFinish := 1 }
+    let s0 : Sim ℚ := { demoSim with dt := 1, exactFinish := 1 }
     let r := (integrate stepOnce env 20 s0 100 false).sim
     r.status = 4 ∧ r.stepsDone = 3 ∧ r.t = 3 := by
   decide +kernel
